@@ -388,4 +388,643 @@ Section Lin.
     destruct x; inversion Hex; subst s'; cbn [ths] in Ht';
       rewrite (nth_set_same _ _ _ _ _ Ht) in Ht'; inversion Ht'; subst th'; cbn; repeat split; reflexivity.
   Qed.
+
+  Lemma exec_holds : forall s t th s' th' a r, nth_error (ths s) t = Some th ->
+    exec s t th = Some s' -> acts th = a :: r -> nth_error (ths s') t = Some th' ->
+    is_lockact a = false -> holds th' = holds th \/ holds th' = None.
+  Proof.
+    intros s t th s' th' a r Ht Hex Ea Ht' Hl. unfold exec in Hex. rewrite Ea in Hex.
+    exec_cases Hex a; try discriminate; inversion Hex; subst s'; cbn [ths] in Ht';
+      rewrite (nth_set_same _ _ _ _ _ Ht) in Ht'; inversion Ht'; subst th'; cbn; auto.
+  Qed.
+
+  (* ------------------------------------------------------------ shapes *)
+  Lemma skipn_cons_nth : forall (A : Type) n (l : list A) o r d, skipn n l = o :: r ->
+    nth n l d = o /\ skipn (S n) l = r /\ firstn (S n) l = firstn n l ++ [o].
+  Proof.
+    intros A n. induction n as [|n IH]; intros l o r d H.
+    - cbn in H. subst l. cbn. auto.
+    - destruct l as [|x l]; [discriminate|]. cbn [skipn] in H. destruct (IH l o r d H) as (A1 & A2 & A3).
+      cbn [nth]. split; [exact A1|split; [exact A2|]]. cbn [firstn app] in *. rewrite A3. reflexivity.
+  Qed.
+
+  Lemma cbody_ne : forall o, cbody o <> [].
+  Proof. intro o. destruct o; cbn; try discriminate. destruct recs; cbn; discriminate. Qed.
+
+  Lemma cbody_class : forall o a, In a (cbody o) ->
+    match o with
+    | OFind k => a = ARdSeal \/ a = ARdSlot (idx bits k) k \/ a = ACopy \/ a = AUnlock xf \/ a = ARet
+    | _ => csdom a = true \/ exists x, a = AUnlock x
+    end.
+  Proof.
+    intros o a H. destruct o; cbn [cbody] in H.
+    - cbn in H. intuition.
+    - cbn in H. intuition (subst; cbn; eauto).
+    - cbn in H. intuition (subst; cbn; eauto).
+    - cbn in H. intuition (subst; cbn; eauto).
+    - destruct H as [H|H]; [subst; left; reflexivity|]. apply in_app_or in H. destruct H as [H|H].
+      + apply in_map_iff in H. destruct H as (i & <- & _). left. reflexivity.
+      + destruct H as [<-|[]]. right. eauto.
+    - apply in_app_or in H. destruct H as [H|H].
+      + apply in_flat_map in H. destruct H as (kv & _ & H). cbn in H. intuition (subst; cbn; eauto).
+      + cbn in H. intuition (subst; cbn; eauto).
+  Qed.
+
+  Lemma suffix_in : forall a b l, suffix (a :: b) l -> In a l.
+  Proof. intros a b l (pre & ->). apply in_or_app. right. left. reflexivity. Qed.
+
+  Lemma suffix_tl : forall a b l, suffix (a :: b) l -> suffix b l.
+  Proof. intros a b l (pre & ->). exists (pre ++ [a]). rewrite <- app_assoc. reflexivity. Qed.
+
+  Lemma find_suffix_cases : forall k b, suffix b (cbody (OFind k)) ->
+    b = cbody (OFind k) \/ b = [ARdSlot (idx bits k) k; ACopy; AUnlock xf; ARet] \/
+    b = [ACopy; AUnlock xf; ARet] \/ b = [AUnlock xf; ARet] \/ b = [ARet] \/ b = [].
+  Proof.
+    intros k b (pre & H). cbn [cbody] in H.
+    do 5 (destruct pre as [|? pre]; [cbn in H; subst b; auto 10|cbn in H; injection H as _ H]).
+    symmetry in H. apply app_eq_nil in H. destruct H as (_ & H). subst b. auto 10.
+  Qed.
+
+  Lemma cs_find_suffix : forall k b, suffix b (cbody (OFind k)) -> b <> [] ->
+    forall gs mm ls rest, agree (fst (cs_run gs mm ls (b ++ rest))) (snd (cs_run gs mm ls (b ++ rest))) = agree gs mm.
+  Proof.
+    intros k b Hs Hne gs mm ls rest.
+    destruct (find_suffix_cases k b Hs) as [E|[E|[E|[E|[E|E]]]]]; subst b; try contradiction; reflexivity.
+  Qed.
+
+  Lemma program_head_none : forall h c ops, wlb h c (program P bits ops) = true -> h = None.
+  Proof.
+    intros h c ops H. destruct ops as [|o ops].
+    - cbn in H. apply andb_true_iff in H. destruct H as (H & _). apply hb_eq_true in H. exact H.
+    - unfold program in H. cbn [flat_map] in H. rewrite compile_eq in H. cbn [app] in H.
+      destruct (wlb_lock _ _ _ _ H) as (H0 & _). exact H0.
+  Qed.
+
+  (* a find that holds no lock any more only has to return *)
+  Lemma find_unlocked_ret : forall k b rest c, suffix b (cbody (OFind k)) -> b <> [] ->
+    wlb None c (b ++ rest) = true -> b = [ARet].
+  Proof.
+    intros k b rest c Hs Hne Hw.
+    destruct (find_suffix_cases k b Hs) as [E|[E|[E|[E|[E|E]]]]]; subst b; try contradiction; try reflexivity;
+      cbn in Hw; discriminate.
+  Qed.
+
+  (* ------------------------------------------------------------ frames for the other threads *)
+  Lemma TL_frame : forall s s' l l' t th,
+    TL s l t th -> mem s' = mem s -> gseal s' = gseal s ->
+    count l' t = count l t -> seq_results bits l' t = seq_results bits l t -> TL s' l' t th.
+  Proof.
+    intros s s' l l' t th (body & Ea & H) Hm Hg Hc Hr. unfold TL. rewrite Hc, Hr, Hm, Hg.
+    exists body. split; [exact Ea|exact H].
+  Qed.
+
+  Lemma TL_frame_unlocked : forall s s' l t th c,
+    TL s l t th -> holds th = None -> wlb None c (acts th) = true -> TL s' l t th.
+  Proof.
+    intros s s' l t th c (body & Ea & H) Hh Hw. unfold TL. exists body. split; [exact Ea|].
+    destruct H as [H|(Hne & o & Hs & Ho)]; [left; exact H|right]. split; [exact Hne|]. exists o. split; [exact Hs|].
+    destruct o; try exact Ho. destruct Ho as (e & Hrd & Hres). exists e. split; [|exact Hres].
+    rewrite Ea in Hw. pose proof (find_unlocked_ret k body _ c Hs Hne Hw) as Eb. subst body.
+    rewrite Ea in *. cbn [app rd_run] in *. exact Hrd.
+  Qed.
+
+  Lemma seq_results_other : forall l t t' o, t' <> t -> seq_results bits ((t', o) :: l) t = seq_results bits l t.
+  Proof.
+    intros l t t' o H. cbn [seq_results]. destruct (Nat.eqb_spec t' t) as [E|_]; [contradiction|].
+    destruct o; reflexivity.
+  Qed.
+
+  Lemma count_other : forall l t t' o, t' <> t -> count ((t', o) :: l) t = count l t.
+  Proof. intros l t t' o H. cbn. destruct (Nat.eqb_spec t' t); [contradiction|reflexivity]. Qed.
+
+  (* ------------------------------------------------------------ the step *)
+  Lemma istep_linv : forall INS s l t, Inv INS s -> LInv s l ->
+    LInv (fst (istep opss (s, l) t)) (snd (istep opss (s, l) t)).
+  Proof.
+    intros INS s l t HI HL. pose proof HL as (HA & HB & HT & HO).
+    unfold istep, step.
+    destruct (nth_error (ths s) t) as [th|] eqn:Ht.
+    2: { unfold acquired. rewrite Ht. cbn. exact HL. }
+    destruct (exec s t th) as [s'|] eqn:Hex.
+    2: { unfold acquired. rewrite Ht. destruct (holds th); cbn; exact HL. }
+    destruct (exec_ths s t th s' Ht Hex) as (th' & Hths & Ht').
+    assert (HI' : Inv INS s').
+    { pose proof (step_inv INS s t HI) as X. unfold step in X. rewrite Ht, Hex in X. exact X. }
+    pose proof HI as (_ & _ & _ & Hth). pose proof HI' as (_ & _ & _ & Hth').
+    pose proof (Hth t th Ht) as ((c & Hw & _) & HMs & HMx & _).
+    pose proof (Hth' t th' Ht') as ((c' & Hw' & _) & _ & HMx' & _).
+    destruct (HT t th Ht) as (body & Eacts & Hphase).
+    destruct (acts th) as [|a r] eqn:Ea.
+    { unfold exec in Hex. rewrite Ea in Hex. discriminate. }
+    (* the other threads keep their records *)
+    assert (Hoth : forall t2 th2, t2 <> t -> nth_error (ths s') t2 = Some th2 -> nth_error (ths s) t2 = Some th2).
+    { intros t2 th2 Hne H. rewrite Hths, nth_set_other in H by congruence. exact H. }
+    assert (Hwr_x : is_wr a = true -> holds th = Some true).
+    { intro Hwa. destruct (wlb_wr _ _ a _ Hwa Hw) as (H & _). exact H. }
+    destruct Hphase as [(Hb & Hh & Hres)|(Hbne & o & Hsuf & Hop)].
+    - (* ---- idle: the step is a lock acquisition *)
+      subst body. cbn [app] in Eacts.
+      destruct (skipn (count l t) (nth t opss [])) as [|o rest'] eqn:Esk; [discriminate|].
+      unfold program in Eacts. cbn [flat_map] in Eacts. rewrite compile_eq in Eacts. cbn [app] in Eacts.
+      injection Eacts as Ea0 Er. subst a.
+      destruct (skipn_cons_nth _ _ _ _ _ OClear Esk) as (Enth & Esk' & Efn).
+      destruct (exec_lock s t th s' th' _ _ Ht Hex Ea Ht') as (Ea' & Hh' & Hr' & Hl' & Hci & Hck & Hmt & Hwh & Hac).
+      destruct (exec_nonwr s t th s' _ _ Hex Ea eq_refl) as (Hmem & Hgs).
+      pose proof (exec_writer s t th s' _ _ Hex Ea) as Hwrt.
+      assert (Eacq : acquired s s' t = true).
+      { unfold acquired. rewrite Ht, Ht', Hh, Hh'. reflexivity. }
+      rewrite Eacq. cbn [fst snd]. rewrite Enth.
+      assert (Hwn : writer s = None) by (destruct (xk o); tauto).
+      pose proof (HA Hwn) as Hag.
+      unfold LInv. split; [|split; [|split]].
+      + intro Hn. destruct (xk o) eqn:Ex; [destruct Hwrt as (_ & E); congruence|].
+        cbn [seq_table snd]. rewrite (shared_no_effect o _ Ex), Hmem, Hgs. exact Hag.
+      + intros tw thw Hw2 Htw. destruct (xk o) eqn:Ex; [|destruct Hwrt as (_ & E); congruence].
+        destruct Hwrt as (_ & E). rewrite E in Hw2. inversion Hw2; subst tw. rewrite Ht' in Htw. inversion Htw; subst thw.
+        rewrite Ea', Er, Hl', Hmem, Hgs. cbn [seq_table snd].
+        apply (cs_compile o (gseal s) (mem s) (lseal th) _ (seq_table bits l) Ex (seq_table_bits l) Hag).
+      + intros t2 th2 Ht2. destruct (Nat.eq_dec t2 t) as [->|Hne].
+        * rewrite Ht' in Ht2. inversion Ht2; subst th2. unfold TL. cbn [count]. rewrite Nat.eqb_refl, Esk'.
+          exists (cbody o). split; [rewrite Ea'; exact Er|right]. split; [apply cbody_ne|].
+          exists o. split; [exists []; reflexivity|].
+          destruct o; cbn [seq_results]; rewrite ?Nat.eqb_refl; try (rewrite Hr'; exact Hres).
+          exists (find (seq_table bits l) k). split; [|rewrite Hr', Hres; reflexivity].
+          rewrite Ea', Er, Hl', Hci, Hck, Hmt, Hwh, Hac, Hmem, Hgs.
+          apply rd_compile; [apply seq_table_bits|exact Hag].
+        * apply (TL_frame s s' l); [apply HT; apply Hoth; assumption|exact Hmem|exact Hgs
+                                   |apply count_other; congruence|apply seq_results_other; congruence].
+      + intro t2. cbn [ops_of count]. destruct (Nat.eqb_spec t t2) as [<-|Hne]; [|apply HO].
+        rewrite HO, Efn. reflexivity.
+    - (* ---- inside an operation *)
+      destruct body as [|a0 body']; [contradiction|]. cbn [app] in Eacts. injection Eacts as Ea0 Er. subst a0.
+      pose proof (suffix_in _ _ _ Hsuf) as Hin. pose proof (suffix_tl _ _ _ Hsuf) as Hsuf'.
+      pose proof (cbody_class o a Hin) as Hcl.
+      assert (Hnl : is_lockact a = false).
+      { destruct o; [destruct Hcl as [E|[E|[E|[E|E]]]]; subst; reflexivity| | | | |];
+          (destruct Hcl as [E|(x & E)]; [destruct a; try discriminate; reflexivity|subst; reflexivity]). }
+      assert (Eacq : acquired s s' t = false).
+      { unfold acquired. rewrite Ht, Ht'.
+        destruct (exec_holds s t th s' th' a r Ht Hex Ea Ht' Hnl) as [E|E]; rewrite E;
+          destruct (holds th); reflexivity. }
+      rewrite Eacq. cbn [fst snd].
+      pose proof (exec_writer s t th s' _ _ Hex Ea) as Hwrt.
+      (* the memory changes only when t is the writer, and then the others hold nothing *)
+      assert (Hmemw : is_wr a = false -> mem s' = mem s /\ gseal s' = gseal s).
+      { intro H. exact (exec_nonwr s t th s' a r Hex Ea H). }
+      assert (Others : forall t2 th2, t2 <> t -> nth_error (ths s') t2 = Some th2 -> TL s' l t2 th2).
+      { intros t2 th2 Hne H2. pose proof (Hoth t2 th2 Hne H2) as H2o.
+        destruct (is_wr a) eqn:Ew.
+        - pose proof (others_hold_nothing INS s t t2 th th2 HI Ht (Hwr_x eq_refl) H2o Hne) as Hn.
+          destruct (Hth t2 th2 H2o) as ((c2 & Hw2 & _) & _). rewrite Hn in Hw2.
+          exact (TL_frame_unlocked s s' l t2 th2 c2 (HT t2 th2 H2o) Hn Hw2).
+        - destruct (Hmemw eq_refl) as (Hm & Hg). apply (TL_frame s s' l l); auto. }
+      (* the writer parts *)
+      assert (PartB_other : forall tw thw, tw <> t -> writer s' = Some tw -> nth_error (ths s') tw = Some thw ->
+                writer s = Some tw /\ mem s' = mem s /\ gseal s' = gseal s).
+      { intros tw thw Hne Hw2 Htw.
+        assert (Ews : writer s = Some tw).
+        { destruct a as [[|]|[|]| | | | | | | | | | | |]; try discriminate; try (rewrite <- Hwrt; exact Hw2); congruence. }
+        split; [exact Ews|]. apply Hmemw. destruct (is_wr a) eqn:Ew; [|reflexivity].
+        pose proof (Hwr_x eq_refl) as Xw. apply HMx in Xw. congruence. }
+      unfold LInv.
+      destruct o as [k|k v| |k| |ts recs].
+      + (* ---------------- find *)
+        destruct Hop as (e & Hrd & Hsr).
+        remember xf as xx eqn:Exx in *.
+        destruct Hcl as [E|[E|[E|[E|E]]]]; subst a.
+        * (* ARdSeal *)
+          assert (Hrdok : match ARdSeal with ARdSeal | ARdSlot _ _ | ACopy | AUnlock _ => True | _ => False end) by exact I.
+          destruct (exec_rd s t th s' th' _ r Ht Hex Ea Ht' Hrdok) as (Hr' & Hacts' & Hrd').
+          rewrite Ea in Hrd', Hacts'.
+          destruct (Hmemw eq_refl) as (Hm & Hg).
+          assert (Hne' : body' <> []).
+          { intro Eb; subst body'. destruct (find_suffix_cases k _ Hsuf) as [X|[X|[X|[X|[X|X]]]]]; discriminate. }
+          assert (Zs : forall ls, agree (fst (cs_run (gseal s) (mem s) ls (ARdSeal :: r))) (snd (cs_run (gseal s) (mem s) ls (ARdSeal :: r)))
+                                  = agree (gseal s) (mem s)).
+          { intro ls. rewrite Er.
+            exact (cs_find_suffix k (ARdSeal :: body') Hsuf ltac:(discriminate) (gseal s) (mem s) ls _). }
+          assert (Zs' : forall ls, agree (fst (cs_run (gseal s') (mem s') ls (acts th'))) (snd (cs_run (gseal s') (mem s') ls (acts th')))
+                                   = agree (gseal s') (mem s')).
+          { intro ls. destruct Hacts' as [Ea2|(_ & Ea2)]; rewrite Ea2, Er.
+            - exact (cs_find_suffix k body' Hsuf' Hne' (gseal s') (mem s') ls _).
+            - exact (cs_find_suffix k (ARdSeal :: body') Hsuf ltac:(discriminate) (gseal s') (mem s') ls _). }
+          split; [|split; [|split; [|exact HO]]].
+          -- intro Hn. rewrite Hm, Hg. cbn in Hwrt. apply HA. congruence.
+          -- intros tw thw Hw2 Htw. destruct (Nat.eq_dec tw t) as [->|Hne2].
+             ++ rewrite Ht' in Htw. inversion Htw; subst thw.
+                assert (Ews : writer s = Some t) by (cbn in Hwrt; congruence).
+                pose proof (HB t th Ews Ht) as Y. rewrite Ea in Y.
+                destruct (cs_run (gseal s) (mem s) (lseal th) (ARdSeal :: r)) as [g1 m1] eqn:E1.
+                destruct (cs_run (gseal s') (mem s') (lseal th') (acts th')) as [g2 m2] eqn:E2.
+                pose proof (Zs (lseal th)) as Z1. rewrite E1 in Z1. cbn [fst snd] in Z1.
+                pose proof (Zs' (lseal th')) as Z2. rewrite E2 in Z2. cbn [fst snd] in Z2.
+                rewrite Z2, Hm, Hg. rewrite Z1 in Y. exact Y.
+             ++ destruct (PartB_other tw thw Hne2 Hw2 Htw) as (Ews & Hm2 & Hg2).
+                rewrite Hm2, Hg2. exact (HB tw thw Ews (Hoth tw thw Hne2 Htw)).
+          -- intros t2 th2 Ht2. destruct (Nat.eq_dec t2 t) as [->|Hne2]; [|exact (Others t2 th2 Hne2 Ht2)].
+             rewrite Ht' in Ht2. inversion Ht2; subst th2. unfold TL.
+             destruct Hacts' as [Ea2|(_ & Ea2)].
+             ++ exists body'. split; [rewrite Ea2; exact Er|right]. split; [exact Hne'|].
+                exists (OFind k). split; [exact Hsuf'|]. exists e. split; [rewrite <- Hrd'; exact Hrd|rewrite Hr'; exact Hsr].
+             ++ exists (ARdSeal :: body'). split; [rewrite Ea2, Er; reflexivity|right]. split; [discriminate|].
+                exists (OFind k). split; [exact Hsuf|]. exists e. split; [rewrite <- Hrd'; exact Hrd|rewrite Hr'; exact Hsr].
+        * (* ARdSlot *)
+          assert (Hrdok : match (ARdSlot (idx bits k) k) with ARdSeal | ARdSlot _ _ | ACopy | AUnlock _ => True | _ => False end) by exact I.
+          destruct (exec_rd s t th s' th' _ r Ht Hex Ea Ht' Hrdok) as (Hr' & Hacts' & Hrd').
+          rewrite Ea in Hrd', Hacts'.
+          destruct (Hmemw eq_refl) as (Hm & Hg).
+          assert (Hne' : body' <> []).
+          { intro Eb; subst body'. destruct (find_suffix_cases k _ Hsuf) as [X|[X|[X|[X|[X|X]]]]]; discriminate. }
+          assert (Zs : forall ls, agree (fst (cs_run (gseal s) (mem s) ls ((ARdSlot (idx bits k) k) :: r))) (snd (cs_run (gseal s) (mem s) ls ((ARdSlot (idx bits k) k) :: r)))
+                                  = agree (gseal s) (mem s)).
+          { intro ls. rewrite Er.
+            exact (cs_find_suffix k ((ARdSlot (idx bits k) k) :: body') Hsuf ltac:(discriminate) (gseal s) (mem s) ls _). }
+          assert (Zs' : forall ls, agree (fst (cs_run (gseal s') (mem s') ls (acts th'))) (snd (cs_run (gseal s') (mem s') ls (acts th')))
+                                   = agree (gseal s') (mem s')).
+          { intro ls. destruct Hacts' as [Ea2|(_ & Ea2)]; rewrite Ea2, Er.
+            - exact (cs_find_suffix k body' Hsuf' Hne' (gseal s') (mem s') ls _).
+            - exact (cs_find_suffix k ((ARdSlot (idx bits k) k) :: body') Hsuf ltac:(discriminate) (gseal s') (mem s') ls _). }
+          split; [|split; [|split; [|exact HO]]].
+          -- intro Hn. rewrite Hm, Hg. cbn in Hwrt. apply HA. congruence.
+          -- intros tw thw Hw2 Htw. destruct (Nat.eq_dec tw t) as [->|Hne2].
+             ++ rewrite Ht' in Htw. inversion Htw; subst thw.
+                assert (Ews : writer s = Some t) by (cbn in Hwrt; congruence).
+                pose proof (HB t th Ews Ht) as Y. rewrite Ea in Y.
+                destruct (cs_run (gseal s) (mem s) (lseal th) ((ARdSlot (idx bits k) k) :: r)) as [g1 m1] eqn:E1.
+                destruct (cs_run (gseal s') (mem s') (lseal th') (acts th')) as [g2 m2] eqn:E2.
+                pose proof (Zs (lseal th)) as Z1. rewrite E1 in Z1. cbn [fst snd] in Z1.
+                pose proof (Zs' (lseal th')) as Z2. rewrite E2 in Z2. cbn [fst snd] in Z2.
+                rewrite Z2, Hm, Hg. rewrite Z1 in Y. exact Y.
+             ++ destruct (PartB_other tw thw Hne2 Hw2 Htw) as (Ews & Hm2 & Hg2).
+                rewrite Hm2, Hg2. exact (HB tw thw Ews (Hoth tw thw Hne2 Htw)).
+          -- intros t2 th2 Ht2. destruct (Nat.eq_dec t2 t) as [->|Hne2]; [|exact (Others t2 th2 Hne2 Ht2)].
+             rewrite Ht' in Ht2. inversion Ht2; subst th2. unfold TL.
+             destruct Hacts' as [Ea2|(_ & Ea2)].
+             ++ exists body'. split; [rewrite Ea2; exact Er|right]. split; [exact Hne'|].
+                exists (OFind k). split; [exact Hsuf'|]. exists e. split; [rewrite <- Hrd'; exact Hrd|rewrite Hr'; exact Hsr].
+             ++ exists ((ARdSlot (idx bits k) k) :: body'). split; [rewrite Ea2, Er; reflexivity|right]. split; [discriminate|].
+                exists (OFind k). split; [exact Hsuf|]. exists e. split; [rewrite <- Hrd'; exact Hrd|rewrite Hr'; exact Hsr].
+        * (* ACopy *)
+          assert (Hrdok : match ACopy with ARdSeal | ARdSlot _ _ | ACopy | AUnlock _ => True | _ => False end) by exact I.
+          destruct (exec_rd s t th s' th' _ r Ht Hex Ea Ht' Hrdok) as (Hr' & Hacts' & Hrd').
+          rewrite Ea in Hrd', Hacts'.
+          destruct (Hmemw eq_refl) as (Hm & Hg).
+          assert (Hne' : body' <> []).
+          { intro Eb; subst body'. destruct (find_suffix_cases k _ Hsuf) as [X|[X|[X|[X|[X|X]]]]]; discriminate. }
+          assert (Zs : forall ls, agree (fst (cs_run (gseal s) (mem s) ls (ACopy :: r))) (snd (cs_run (gseal s) (mem s) ls (ACopy :: r)))
+                                  = agree (gseal s) (mem s)).
+          { intro ls. rewrite Er.
+            exact (cs_find_suffix k (ACopy :: body') Hsuf ltac:(discriminate) (gseal s) (mem s) ls _). }
+          assert (Zs' : forall ls, agree (fst (cs_run (gseal s') (mem s') ls (acts th'))) (snd (cs_run (gseal s') (mem s') ls (acts th')))
+                                   = agree (gseal s') (mem s')).
+          { intro ls. destruct Hacts' as [Ea2|(_ & Ea2)]; rewrite Ea2, Er.
+            - exact (cs_find_suffix k body' Hsuf' Hne' (gseal s') (mem s') ls _).
+            - exact (cs_find_suffix k (ACopy :: body') Hsuf ltac:(discriminate) (gseal s') (mem s') ls _). }
+          split; [|split; [|split; [|exact HO]]].
+          -- intro Hn. rewrite Hm, Hg. cbn in Hwrt. apply HA. congruence.
+          -- intros tw thw Hw2 Htw. destruct (Nat.eq_dec tw t) as [->|Hne2].
+             ++ rewrite Ht' in Htw. inversion Htw; subst thw.
+                assert (Ews : writer s = Some t) by (cbn in Hwrt; congruence).
+                pose proof (HB t th Ews Ht) as Y. rewrite Ea in Y.
+                destruct (cs_run (gseal s) (mem s) (lseal th) (ACopy :: r)) as [g1 m1] eqn:E1.
+                destruct (cs_run (gseal s') (mem s') (lseal th') (acts th')) as [g2 m2] eqn:E2.
+                pose proof (Zs (lseal th)) as Z1. rewrite E1 in Z1. cbn [fst snd] in Z1.
+                pose proof (Zs' (lseal th')) as Z2. rewrite E2 in Z2. cbn [fst snd] in Z2.
+                rewrite Z2, Hm, Hg. rewrite Z1 in Y. exact Y.
+             ++ destruct (PartB_other tw thw Hne2 Hw2 Htw) as (Ews & Hm2 & Hg2).
+                rewrite Hm2, Hg2. exact (HB tw thw Ews (Hoth tw thw Hne2 Htw)).
+          -- intros t2 th2 Ht2. destruct (Nat.eq_dec t2 t) as [->|Hne2]; [|exact (Others t2 th2 Hne2 Ht2)].
+             rewrite Ht' in Ht2. inversion Ht2; subst th2. unfold TL.
+             destruct Hacts' as [Ea2|(_ & Ea2)].
+             ++ exists body'. split; [rewrite Ea2; exact Er|right]. split; [exact Hne'|].
+                exists (OFind k). split; [exact Hsuf'|]. exists e. split; [rewrite <- Hrd'; exact Hrd|rewrite Hr'; exact Hsr].
+             ++ exists (ACopy :: body'). split; [rewrite Ea2, Er; reflexivity|right]. split; [discriminate|].
+                exists (OFind k). split; [exact Hsuf|]. exists e. split; [rewrite <- Hrd'; exact Hrd|rewrite Hr'; exact Hsr].
+        * (* AUnlock *)
+          assert (Hrdok : match (AUnlock xx) with ARdSeal | ARdSlot _ _ | ACopy | AUnlock _ => True | _ => False end) by exact I.
+          destruct (exec_rd s t th s' th' _ r Ht Hex Ea Ht' Hrdok) as (Hr' & Hacts' & Hrd').
+          rewrite Ea in Hrd', Hacts'.
+          destruct (Hmemw eq_refl) as (Hm & Hg).
+          assert (Hne' : body' <> []).
+          { intro Eb; subst body'. destruct (find_suffix_cases k _ Hsuf) as [X|[X|[X|[X|[X|X]]]]]; discriminate. }
+          assert (Zs : forall ls, agree (fst (cs_run (gseal s) (mem s) ls ((AUnlock xx) :: r))) (snd (cs_run (gseal s) (mem s) ls ((AUnlock xx) :: r)))
+                                  = agree (gseal s) (mem s)).
+          { intro ls. rewrite Er.
+            exact (cs_find_suffix k ((AUnlock xx) :: body') Hsuf ltac:(discriminate) (gseal s) (mem s) ls _). }
+          assert (Zs' : forall ls, agree (fst (cs_run (gseal s') (mem s') ls (acts th'))) (snd (cs_run (gseal s') (mem s') ls (acts th')))
+                                   = agree (gseal s') (mem s')).
+          { intro ls. destruct Hacts' as [Ea2|(_ & Ea2)]; rewrite Ea2, Er.
+            - exact (cs_find_suffix k body' Hsuf' Hne' (gseal s') (mem s') ls _).
+            - exact (cs_find_suffix k ((AUnlock xx) :: body') Hsuf ltac:(discriminate) (gseal s') (mem s') ls _). }
+          split; [|split; [|split; [|exact HO]]].
+          -- intro Hn. rewrite Hm, Hg. destruct (wlb_unlock _ _ _ _ Hw) as (Hxh & _).
+             destruct xx.
+             ++ apply HMx in Hxh. pose proof (HB t th Hxh Ht) as Y. rewrite Ea in Y. cbn in Y. exact Y.
+             ++ cbn in Hwrt. apply HA. congruence.
+          -- intros tw thw Hw2 Htw. destruct (Nat.eq_dec tw t) as [->|Hne2].
+             ++ rewrite Ht' in Htw. inversion Htw; subst thw.
+                assert (Ews : writer s = Some t) by (destruct xx; cbn in Hwrt; congruence).
+                pose proof (HB t th Ews Ht) as Y. rewrite Ea in Y.
+                destruct (cs_run (gseal s) (mem s) (lseal th) ((AUnlock xx) :: r)) as [g1 m1] eqn:E1.
+                destruct (cs_run (gseal s') (mem s') (lseal th') (acts th')) as [g2 m2] eqn:E2.
+                pose proof (Zs (lseal th)) as Z1. rewrite E1 in Z1. cbn [fst snd] in Z1.
+                pose proof (Zs' (lseal th')) as Z2. rewrite E2 in Z2. cbn [fst snd] in Z2.
+                rewrite Z2, Hm, Hg. rewrite Z1 in Y. exact Y.
+             ++ destruct (PartB_other tw thw Hne2 Hw2 Htw) as (Ews & Hm2 & Hg2).
+                rewrite Hm2, Hg2. exact (HB tw thw Ews (Hoth tw thw Hne2 Htw)).
+          -- intros t2 th2 Ht2. destruct (Nat.eq_dec t2 t) as [->|Hne2]; [|exact (Others t2 th2 Hne2 Ht2)].
+             rewrite Ht' in Ht2. inversion Ht2; subst th2. unfold TL.
+             destruct Hacts' as [Ea2|(_ & Ea2)].
+             ++ exists body'. split; [rewrite Ea2; exact Er|right]. split; [exact Hne'|].
+                exists (OFind k). split; [exact Hsuf'|]. exists e. split; [rewrite <- Hrd'; exact Hrd|rewrite Hr'; exact Hsr].
+             ++ exists ((AUnlock xx) :: body'). split; [rewrite Ea2, Er; reflexivity|right]. split; [discriminate|].
+                exists (OFind k). split; [exact Hsuf|]. exists e. split; [rewrite <- Hrd'; exact Hrd|rewrite Hr'; exact Hsr].
+        *
+        (* the return *)
+          destruct (exec_ret s t th s' th' r Ht Hex Ea Ht') as (Ea' & Hr').
+        destruct (Hmemw eq_refl) as (Hm & Hg). cbn in Hwrt.
+        assert (Eb : body' = []).
+        { destruct (find_suffix_cases k (ARet :: body') Hsuf) as [X|[X|[X|[X|[X|X]]]]]; try discriminate.
+          inversion X. reflexivity. }
+        subst body'. cbn [app] in Er.
+        assert (Hh' : holds th' = None).
+        { rewrite Ea', Er in Hw'. exact (program_head_none _ _ _ Hw'). }
+        cbn [rd_run] in Hrd. injection Hrd as Ek Ee.
+        split; [|split; [|split; [|exact HO]]].
+        -- intro Hn. rewrite Hm, Hg. apply HA. congruence.
+        -- intros tw thw Hw2 Htw. destruct (Nat.eq_dec tw t) as [->|Hne2].
+          ++ exfalso. rewrite Ht' in Htw. inversion Htw; subst thw.
+             assert (X : holds th' = Some true) by (apply HMx'; exact Hw2). congruence.
+          ++ destruct (PartB_other tw thw Hne2 Hw2 Htw) as (Ews & Hm2 & Hg2).
+             rewrite Hm2, Hg2. exact (HB tw thw Ews (Hoth tw thw Hne2 Htw)).
+        -- intros t2 th2 Ht2. destruct (Nat.eq_dec t2 t) as [->|Hne2]; [|exact (Others t2 th2 Hne2 Ht2)].
+          rewrite Ht' in Ht2. inversion Ht2; subst th2. unfold TL. exists []. split; [rewrite Ea'; exact Er|left].
+          split; [reflexivity|split; [exact Hh'|]]. rewrite Hr', Hsr, Ek, Ee. reflexivity.
+      + (* ---------------- insert *)
+        cbn beta iota in Hop, Hcl. destruct Hcl as [Hcs|(x & Ex)].
+        * destruct (exec_cs s t th s' th' a r Ht Hex Ea Hcs Ht') as (Ea' & Hh' & Hr' & Hcsr).
+          assert (Hwrt' : writer s' = writer s) by (destruct a; try discriminate; exact Hwrt).
+          split; [|split; [|split; [|exact HO]]].
+          -- intro Hn. rewrite Hwrt' in Hn. destruct (is_wr a) eqn:Ew.
+             ++ pose proof (Hwr_x eq_refl) as Xw. apply HMx in Xw. congruence.
+             ++ destruct (Hmemw eq_refl) as (Hm & Hg). rewrite Hm, Hg. exact (HA Hn).
+          -- intros tw thw Hw2 Htw. destruct (Nat.eq_dec tw t) as [->|Hne2].
+             ++ rewrite Ht' in Htw. inversion Htw; subst thw. rewrite Hwrt' in Hw2.
+                pose proof (HB t th Hw2 Ht) as Y. rewrite Ea, Hcsr in Y. rewrite Ea'. exact Y.
+             ++ destruct (PartB_other tw thw Hne2 Hw2 Htw) as (Ews & Hm2 & Hg2).
+                rewrite Hm2, Hg2. exact (HB tw thw Ews (Hoth tw thw Hne2 Htw)).
+          -- intros t2 th2 Ht2. destruct (Nat.eq_dec t2 t) as [->|Hne2]; [|exact (Others t2 th2 Hne2 Ht2)].
+             rewrite Ht' in Ht2. inversion Ht2; subst th2. unfold TL. exists body'.
+             split; [rewrite Ea'; exact Er|].
+             destruct body' as [|b0 body''].
+             ++ left. split; [reflexivity|split; [|rewrite Hr'; exact Hop]].
+                cbn [app] in Er. rewrite Ea', Er in Hw'. exact (program_head_none _ _ _ Hw').
+             ++ right. split; [discriminate|].
+                match type of Hsuf' with suffix _ (cbody ?oo) => exists oo end.
+                split; [exact Hsuf'|]. rewrite Hr'. exact Hop.
+        * subst a. destruct (exec_unlock s t th s' th' x r Ht Hex Ea Ht') as (Ea' & Hh' & Hr').
+          destruct (Hmemw eq_refl) as (Hm & Hg).
+          assert (Hx : holds th = Some x) by (destruct (wlb_unlock _ _ _ _ Hw) as (X & _); exact X).
+          split; [|split; [|split; [|exact HO]]].
+          -- intro Hn. rewrite Hm, Hg. destruct x.
+             ++ apply HMx in Hx. pose proof (HB t th Hx Ht) as Y. rewrite Ea in Y. cbn in Y. exact Y.
+             ++ cbn in Hwrt. apply HA. congruence.
+          -- intros tw thw Hw2 Htw. destruct (Nat.eq_dec tw t) as [->|Hne2].
+             ++ exfalso. rewrite Ht' in Htw. inversion Htw; subst thw.
+                assert (X : holds th' = Some true) by (apply HMx'; exact Hw2). congruence.
+             ++ destruct (PartB_other tw thw Hne2 Hw2 Htw) as (Ews & Hm2 & Hg2).
+                rewrite Hm2, Hg2. exact (HB tw thw Ews (Hoth tw thw Hne2 Htw)).
+          -- intros t2 th2 Ht2. destruct (Nat.eq_dec t2 t) as [->|Hne2]; [|exact (Others t2 th2 Hne2 Ht2)].
+             rewrite Ht' in Ht2. inversion Ht2; subst th2. unfold TL. exists body'.
+             split; [rewrite Ea'; exact Er|].
+             destruct body' as [|b0 body''].
+             ++ left. split; [reflexivity|split; [exact Hh'|rewrite Hr'; exact Hop]].
+             ++ right. split; [discriminate|].
+                match type of Hsuf' with suffix _ (cbody ?oo) => exists oo end.
+                split; [exact Hsuf'|]. rewrite Hr'. exact Hop.
+      + (* ---------------- clear *)
+        cbn beta iota in Hop, Hcl. destruct Hcl as [Hcs|(x & Ex)].
+        * destruct (exec_cs s t th s' th' a r Ht Hex Ea Hcs Ht') as (Ea' & Hh' & Hr' & Hcsr).
+          assert (Hwrt' : writer s' = writer s) by (destruct a; try discriminate; exact Hwrt).
+          split; [|split; [|split; [|exact HO]]].
+          -- intro Hn. rewrite Hwrt' in Hn. destruct (is_wr a) eqn:Ew.
+             ++ pose proof (Hwr_x eq_refl) as Xw. apply HMx in Xw. congruence.
+             ++ destruct (Hmemw eq_refl) as (Hm & Hg). rewrite Hm, Hg. exact (HA Hn).
+          -- intros tw thw Hw2 Htw. destruct (Nat.eq_dec tw t) as [->|Hne2].
+             ++ rewrite Ht' in Htw. inversion Htw; subst thw. rewrite Hwrt' in Hw2.
+                pose proof (HB t th Hw2 Ht) as Y. rewrite Ea, Hcsr in Y. rewrite Ea'. exact Y.
+             ++ destruct (PartB_other tw thw Hne2 Hw2 Htw) as (Ews & Hm2 & Hg2).
+                rewrite Hm2, Hg2. exact (HB tw thw Ews (Hoth tw thw Hne2 Htw)).
+          -- intros t2 th2 Ht2. destruct (Nat.eq_dec t2 t) as [->|Hne2]; [|exact (Others t2 th2 Hne2 Ht2)].
+             rewrite Ht' in Ht2. inversion Ht2; subst th2. unfold TL. exists body'.
+             split; [rewrite Ea'; exact Er|].
+             destruct body' as [|b0 body''].
+             ++ left. split; [reflexivity|split; [|rewrite Hr'; exact Hop]].
+                cbn [app] in Er. rewrite Ea', Er in Hw'. exact (program_head_none _ _ _ Hw').
+             ++ right. split; [discriminate|].
+                match type of Hsuf' with suffix _ (cbody ?oo) => exists oo end.
+                split; [exact Hsuf'|]. rewrite Hr'. exact Hop.
+        * subst a. destruct (exec_unlock s t th s' th' x r Ht Hex Ea Ht') as (Ea' & Hh' & Hr').
+          destruct (Hmemw eq_refl) as (Hm & Hg).
+          assert (Hx : holds th = Some x) by (destruct (wlb_unlock _ _ _ _ Hw) as (X & _); exact X).
+          split; [|split; [|split; [|exact HO]]].
+          -- intro Hn. rewrite Hm, Hg. destruct x.
+             ++ apply HMx in Hx. pose proof (HB t th Hx Ht) as Y. rewrite Ea in Y. cbn in Y. exact Y.
+             ++ cbn in Hwrt. apply HA. congruence.
+          -- intros tw thw Hw2 Htw. destruct (Nat.eq_dec tw t) as [->|Hne2].
+             ++ exfalso. rewrite Ht' in Htw. inversion Htw; subst thw.
+                assert (X : holds th' = Some true) by (apply HMx'; exact Hw2). congruence.
+             ++ destruct (PartB_other tw thw Hne2 Hw2 Htw) as (Ews & Hm2 & Hg2).
+                rewrite Hm2, Hg2. exact (HB tw thw Ews (Hoth tw thw Hne2 Htw)).
+          -- intros t2 th2 Ht2. destruct (Nat.eq_dec t2 t) as [->|Hne2]; [|exact (Others t2 th2 Hne2 Ht2)].
+             rewrite Ht' in Ht2. inversion Ht2; subst th2. unfold TL. exists body'.
+             split; [rewrite Ea'; exact Er|].
+             destruct body' as [|b0 body''].
+             ++ left. split; [reflexivity|split; [exact Hh'|rewrite Hr'; exact Hop]].
+             ++ right. split; [discriminate|].
+                match type of Hsuf' with suffix _ (cbody ?oo) => exists oo end.
+                split; [exact Hsuf'|]. rewrite Hr'. exact Hop.
+      + (* ---------------- clear_one *)
+        cbn beta iota in Hop, Hcl. destruct Hcl as [Hcs|(x & Ex)].
+        * destruct (exec_cs s t th s' th' a r Ht Hex Ea Hcs Ht') as (Ea' & Hh' & Hr' & Hcsr).
+          assert (Hwrt' : writer s' = writer s) by (destruct a; try discriminate; exact Hwrt).
+          split; [|split; [|split; [|exact HO]]].
+          -- intro Hn. rewrite Hwrt' in Hn. destruct (is_wr a) eqn:Ew.
+             ++ pose proof (Hwr_x eq_refl) as Xw. apply HMx in Xw. congruence.
+             ++ destruct (Hmemw eq_refl) as (Hm & Hg). rewrite Hm, Hg. exact (HA Hn).
+          -- intros tw thw Hw2 Htw. destruct (Nat.eq_dec tw t) as [->|Hne2].
+             ++ rewrite Ht' in Htw. inversion Htw; subst thw. rewrite Hwrt' in Hw2.
+                pose proof (HB t th Hw2 Ht) as Y. rewrite Ea, Hcsr in Y. rewrite Ea'. exact Y.
+             ++ destruct (PartB_other tw thw Hne2 Hw2 Htw) as (Ews & Hm2 & Hg2).
+                rewrite Hm2, Hg2. exact (HB tw thw Ews (Hoth tw thw Hne2 Htw)).
+          -- intros t2 th2 Ht2. destruct (Nat.eq_dec t2 t) as [->|Hne2]; [|exact (Others t2 th2 Hne2 Ht2)].
+             rewrite Ht' in Ht2. inversion Ht2; subst th2. unfold TL. exists body'.
+             split; [rewrite Ea'; exact Er|].
+             destruct body' as [|b0 body''].
+             ++ left. split; [reflexivity|split; [|rewrite Hr'; exact Hop]].
+                cbn [app] in Er. rewrite Ea', Er in Hw'. exact (program_head_none _ _ _ Hw').
+             ++ right. split; [discriminate|].
+                match type of Hsuf' with suffix _ (cbody ?oo) => exists oo end.
+                split; [exact Hsuf'|]. rewrite Hr'. exact Hop.
+        * subst a. destruct (exec_unlock s t th s' th' x r Ht Hex Ea Ht') as (Ea' & Hh' & Hr').
+          destruct (Hmemw eq_refl) as (Hm & Hg).
+          assert (Hx : holds th = Some x) by (destruct (wlb_unlock _ _ _ _ Hw) as (X & _); exact X).
+          split; [|split; [|split; [|exact HO]]].
+          -- intro Hn. rewrite Hm, Hg. destruct x.
+             ++ apply HMx in Hx. pose proof (HB t th Hx Ht) as Y. rewrite Ea in Y. cbn in Y. exact Y.
+             ++ cbn in Hwrt. apply HA. congruence.
+          -- intros tw thw Hw2 Htw. destruct (Nat.eq_dec tw t) as [->|Hne2].
+             ++ exfalso. rewrite Ht' in Htw. inversion Htw; subst thw.
+                assert (X : holds th' = Some true) by (apply HMx'; exact Hw2). congruence.
+             ++ destruct (PartB_other tw thw Hne2 Hw2 Htw) as (Ews & Hm2 & Hg2).
+                rewrite Hm2, Hg2. exact (HB tw thw Ews (Hoth tw thw Hne2 Htw)).
+          -- intros t2 th2 Ht2. destruct (Nat.eq_dec t2 t) as [->|Hne2]; [|exact (Others t2 th2 Hne2 Ht2)].
+             rewrite Ht' in Ht2. inversion Ht2; subst th2. unfold TL. exists body'.
+             split; [rewrite Ea'; exact Er|].
+             destruct body' as [|b0 body''].
+             ++ left. split; [reflexivity|split; [exact Hh'|rewrite Hr'; exact Hop]].
+             ++ right. split; [discriminate|].
+                match type of Hsuf' with suffix _ (cbody ?oo) => exists oo end.
+                split; [exact Hsuf'|]. rewrite Hr'. exact Hop.
+      + (* ---------------- save *)
+        cbn beta iota in Hop, Hcl. destruct Hcl as [Hcs|(x & Ex)].
+        * destruct (exec_cs s t th s' th' a r Ht Hex Ea Hcs Ht') as (Ea' & Hh' & Hr' & Hcsr).
+          assert (Hwrt' : writer s' = writer s) by (destruct a; try discriminate; exact Hwrt).
+          split; [|split; [|split; [|exact HO]]].
+          -- intro Hn. rewrite Hwrt' in Hn. destruct (is_wr a) eqn:Ew.
+             ++ pose proof (Hwr_x eq_refl) as Xw. apply HMx in Xw. congruence.
+             ++ destruct (Hmemw eq_refl) as (Hm & Hg). rewrite Hm, Hg. exact (HA Hn).
+          -- intros tw thw Hw2 Htw. destruct (Nat.eq_dec tw t) as [->|Hne2].
+             ++ rewrite Ht' in Htw. inversion Htw; subst thw. rewrite Hwrt' in Hw2.
+                pose proof (HB t th Hw2 Ht) as Y. rewrite Ea, Hcsr in Y. rewrite Ea'. exact Y.
+             ++ destruct (PartB_other tw thw Hne2 Hw2 Htw) as (Ews & Hm2 & Hg2).
+                rewrite Hm2, Hg2. exact (HB tw thw Ews (Hoth tw thw Hne2 Htw)).
+          -- intros t2 th2 Ht2. destruct (Nat.eq_dec t2 t) as [->|Hne2]; [|exact (Others t2 th2 Hne2 Ht2)].
+             rewrite Ht' in Ht2. inversion Ht2; subst th2. unfold TL. exists body'.
+             split; [rewrite Ea'; exact Er|].
+             destruct body' as [|b0 body''].
+             ++ left. split; [reflexivity|split; [|rewrite Hr'; exact Hop]].
+                cbn [app] in Er. rewrite Ea', Er in Hw'. exact (program_head_none _ _ _ Hw').
+             ++ right. split; [discriminate|].
+                match type of Hsuf' with suffix _ (cbody ?oo) => exists oo end.
+                split; [exact Hsuf'|]. rewrite Hr'. exact Hop.
+        * subst a. destruct (exec_unlock s t th s' th' x r Ht Hex Ea Ht') as (Ea' & Hh' & Hr').
+          destruct (Hmemw eq_refl) as (Hm & Hg).
+          assert (Hx : holds th = Some x) by (destruct (wlb_unlock _ _ _ _ Hw) as (X & _); exact X).
+          split; [|split; [|split; [|exact HO]]].
+          -- intro Hn. rewrite Hm, Hg. destruct x.
+             ++ apply HMx in Hx. pose proof (HB t th Hx Ht) as Y. rewrite Ea in Y. cbn in Y. exact Y.
+             ++ cbn in Hwrt. apply HA. congruence.
+          -- intros tw thw Hw2 Htw. destruct (Nat.eq_dec tw t) as [->|Hne2].
+             ++ exfalso. rewrite Ht' in Htw. inversion Htw; subst thw.
+                assert (X : holds th' = Some true) by (apply HMx'; exact Hw2). congruence.
+             ++ destruct (PartB_other tw thw Hne2 Hw2 Htw) as (Ews & Hm2 & Hg2).
+                rewrite Hm2, Hg2. exact (HB tw thw Ews (Hoth tw thw Hne2 Htw)).
+          -- intros t2 th2 Ht2. destruct (Nat.eq_dec t2 t) as [->|Hne2]; [|exact (Others t2 th2 Hne2 Ht2)].
+             rewrite Ht' in Ht2. inversion Ht2; subst th2. unfold TL. exists body'.
+             split; [rewrite Ea'; exact Er|].
+             destruct body' as [|b0 body''].
+             ++ left. split; [reflexivity|split; [exact Hh'|rewrite Hr'; exact Hop]].
+             ++ right. split; [discriminate|].
+                match type of Hsuf' with suffix _ (cbody ?oo) => exists oo end.
+                split; [exact Hsuf'|]. rewrite Hr'. exact Hop.
+      + (* ---------------- load *)
+        cbn beta iota in Hop, Hcl. destruct Hcl as [Hcs|(x & Ex)].
+        * destruct (exec_cs s t th s' th' a r Ht Hex Ea Hcs Ht') as (Ea' & Hh' & Hr' & Hcsr).
+          assert (Hwrt' : writer s' = writer s) by (destruct a; try discriminate; exact Hwrt).
+          split; [|split; [|split; [|exact HO]]].
+          -- intro Hn. rewrite Hwrt' in Hn. destruct (is_wr a) eqn:Ew.
+             ++ pose proof (Hwr_x eq_refl) as Xw. apply HMx in Xw. congruence.
+             ++ destruct (Hmemw eq_refl) as (Hm & Hg). rewrite Hm, Hg. exact (HA Hn).
+          -- intros tw thw Hw2 Htw. destruct (Nat.eq_dec tw t) as [->|Hne2].
+             ++ rewrite Ht' in Htw. inversion Htw; subst thw. rewrite Hwrt' in Hw2.
+                pose proof (HB t th Hw2 Ht) as Y. rewrite Ea, Hcsr in Y. rewrite Ea'. exact Y.
+             ++ destruct (PartB_other tw thw Hne2 Hw2 Htw) as (Ews & Hm2 & Hg2).
+                rewrite Hm2, Hg2. exact (HB tw thw Ews (Hoth tw thw Hne2 Htw)).
+          -- intros t2 th2 Ht2. destruct (Nat.eq_dec t2 t) as [->|Hne2]; [|exact (Others t2 th2 Hne2 Ht2)].
+             rewrite Ht' in Ht2. inversion Ht2; subst th2. unfold TL. exists body'.
+             split; [rewrite Ea'; exact Er|].
+             destruct body' as [|b0 body''].
+             ++ left. split; [reflexivity|split; [|rewrite Hr'; exact Hop]].
+                cbn [app] in Er. rewrite Ea', Er in Hw'. exact (program_head_none _ _ _ Hw').
+             ++ right. split; [discriminate|].
+                match type of Hsuf' with suffix _ (cbody ?oo) => exists oo end.
+                split; [exact Hsuf'|]. rewrite Hr'. exact Hop.
+        * subst a. destruct (exec_unlock s t th s' th' x r Ht Hex Ea Ht') as (Ea' & Hh' & Hr').
+          destruct (Hmemw eq_refl) as (Hm & Hg).
+          assert (Hx : holds th = Some x) by (destruct (wlb_unlock _ _ _ _ Hw) as (X & _); exact X).
+          split; [|split; [|split; [|exact HO]]].
+          -- intro Hn. rewrite Hm, Hg. destruct x.
+             ++ apply HMx in Hx. pose proof (HB t th Hx Ht) as Y. rewrite Ea in Y. cbn in Y. exact Y.
+             ++ cbn in Hwrt. apply HA. congruence.
+          -- intros tw thw Hw2 Htw. destruct (Nat.eq_dec tw t) as [->|Hne2].
+             ++ exfalso. rewrite Ht' in Htw. inversion Htw; subst thw.
+                assert (X : holds th' = Some true) by (apply HMx'; exact Hw2). congruence.
+             ++ destruct (PartB_other tw thw Hne2 Hw2 Htw) as (Ews & Hm2 & Hg2).
+                rewrite Hm2, Hg2. exact (HB tw thw Ews (Hoth tw thw Hne2 Htw)).
+          -- intros t2 th2 Ht2. destruct (Nat.eq_dec t2 t) as [->|Hne2]; [|exact (Others t2 th2 Hne2 Ht2)].
+             rewrite Ht' in Ht2. inversion Ht2; subst th2. unfold TL. exists body'.
+             split; [rewrite Ea'; exact Er|].
+             destruct body' as [|b0 body''].
+             ++ left. split; [reflexivity|split; [exact Hh'|rewrite Hr'; exact Hop]].
+             ++ right. split; [discriminate|].
+                match type of Hsuf' with suffix _ (cbody ?oo) => exists oo end.
+                split; [exact Hsuf'|]. rewrite Hr'. exact Hop.
+  Qed.
+
+  (* ------------------------------------------------------------ any schedule *)
+  Lemma irun_linv : forall INS sched s l, Inv INS s -> LInv s l ->
+    LInv (fst (irun opss sched (s, l))) (snd (irun opss sched (s, l))).
+  Proof.
+    intros INS sched. induction sched as [|t sched IH]; intros s l HI HL; [exact HL|].
+    cbn [irun fold_left]. pose proof (istep_linv INS s l t HI HL) as H.
+    destruct (istep opss (s, l) t) as [s1 l1] eqn:E. cbn [fst snd] in H.
+    apply IH; [|exact H].
+    assert (Es : s1 = step s t).
+    { unfold istep in E. destruct (acquired s (step s t) t); inversion E; reflexivity. }
+    rewrite Es. apply step_inv. exact HI.
+  Qed.
+
+  Lemma init_linv : LInv (init progs) [].
+  Proof.
+    unfold LInv, init, progs. cbn [writer gseal mem ths seq_table count]. split; [|split; [|split]].
+    - intros _. split; reflexivity.
+    - intros t th H. discriminate.
+    - intros t th Hn. rewrite nth_error_map in Hn. rewrite nth_error_map in Hn.
+      destruct (nth_error opss t) as [ops|] eqn:Eo; [|discriminate]. inversion Hn; subst th; clear Hn.
+      unfold TL. cbn [count skipn acts holds results init_thread seq_results]. exists [].
+      split; [|left; repeat split].
+      cbn [app]. f_equal. symmetry. apply nth_error_nth. exact Eo.
+    - intro t. reflexivity.
+  Qed.
+
+  (* LINEARISATION.  For every schedule: the operations whose lock acquisition
+     has happened are, thread by thread, a prefix of that thread's program
+     (ops_of); whenever nobody holds the exclusive lock the shared memory IS
+     the sequential table obtained by applying them in acquisition order to a
+     fresh table; and the finds a thread has completed returned exactly what
+     the sequential finds return in that order (a find in flight is the only
+     one not yet recorded). *)
+  Lemma linearisation : forall sched,
+    let s := fst (irun opss sched (init progs, [])) in
+    let l := snd (irun opss sched (init progs, [])) in
+    s = run sched (init progs) /\
+    (forall t, ops_of l t = firstn (count l t) (nth t opss [])) /\
+    (writer s = None -> agree (gseal s) (mem s) (seq_table bits l)) /\
+    (forall t th, nth_error (ths s) t = Some th ->
+       results th = seq_results bits l t \/ exists kr, seq_results bits l t = kr :: results th) /\
+    (forall t th, nth_error (ths s) t = Some th -> acts th = [] -> results th = seq_results bits l t).
+  Proof.
+    intro sched. cbn zeta.
+    assert (HI0 : Inv (flat_map ins_of progs) (init progs)).
+    { pose proof (reachable_inv progs [] ) as X. cbn in X. apply X.
+      apply Forall_forall. intros p Hp. unfold progs in Hp. apply in_map_iff in Hp. destruct Hp as (ops & <- & _).
+      destruct (program_ok P bits ops Pok) as ((W & Pp & _) & _). split; assumption. }
+    pose proof (irun_linv _ sched _ _ HI0 init_linv) as (HA & HB & HT & HO).
+    split; [apply (irun_fst opss sched (init progs, []))|split; [exact HO|split; [exact HA|split]]].
+    - intros t th Hn. destruct (HT t th Hn) as (body & Ea & [(_ & _ & Hr)|(_ & o & _ & Ho)]); [left; exact Hr|].
+      destruct o; try (left; exact Ho). destruct Ho as (e & _ & Hs). right. eexists. exact Hs.
+    - intros t th Hn Hnil. destruct (HT t th Hn) as (body & Ea & [(_ & _ & Hr)|(Hne & _)]); [exact Hr|].
+      rewrite Hnil in Ea. destruct body; [contradiction|discriminate].
+  Qed.
 End Lin.
